@@ -1,7 +1,7 @@
 (* requests:
    RUN <max> <compress01> <decode_text01> <seg hex> ...    -> per segment  E:<events>;S:<state>;P:<pause01>   joined by " | "
    SPEC <profile> <max> <compress01> <decode_text01> <stream hex>  -> E:<events>;O:<outcome>
-        profile: rfc | aio (generated comparisons) | a letter string over {w,c}: wire_too_big / close_ok from known_quirks_profile, rest rfc
+        profile: rfc (hand-written) | aio (comparisons regenerated from the code)
    UTF8 <hex> -> 0|1
    TOY <cap> <hex> <hex> ...   -> successive decompress_sync results on one context: OK:<hex> | TOOMANY | ERR
    numbers that may exceed 62 bits are printed in binary with a 'b' prefix *)
@@ -32,11 +32,7 @@ let cls_str = function
   | VLen64 -> "len64" | VTooBig -> "too-big" | VContNoMessage -> "cont-no-message" | VDataInMessage -> "data-in-message"
   | VUtf8 -> "utf8" | VCloseCode -> "close-code" | VCloseLen -> "close-len" | VCodec -> "codec" | VTooManyMembers -> "too-many-members"
 let mkcfg_ mx cmp dt = { max_msg_size = n_of_int (int_of_string mx); compress = (cmp = "1"); decode_text = (dt = "1") }
-let profile_of s =
-  if s = "rfc" then rfc_profile else if s = "aio" then aiohttp_profile else
-  { wire_too_big = (if String.contains s 'w' then known_quirks_profile.wire_too_big else rfc_profile.wire_too_big);
-    msg_too_big = rfc_profile.msg_too_big;
-    close_ok = (if String.contains s 'c' then known_quirks_profile.close_ok else rfc_profile.close_ok) }
+let profile_of s = if s = "aio" then aiohttp_profile else rfc_profile
 let handle line =
   match words line with
   | "RUN" :: mx :: cmp :: dt :: segs ->
